@@ -1718,6 +1718,170 @@ func modeParseConc(n int) {
 	emit(J{"kind": "parseconc", "inputs": len(ins), "goroutines": 32, "calls": calls, "wrong": wrong, "examples": ex})
 }
 
+// time mode: Go's Time.Format(RFC3339Nano) on boundary and random instants in many zones, and time.Parse(RFC3339Nano, .)
+// on those texts, on the variants Go tolerates or rejects, and on mutated texts - for the Gallina codec coq/Values/TimeCodec.v
+func modeTime(n int) {
+	seenP := map[string]bool{}
+	emitP := func(s string) {
+		if seenP[s] {
+			return
+		}
+		seenP[s] = true
+		j := J{"kind": "tparse", "in": hx(s), "res": nil}
+		if t, err := time.Parse(time.RFC3339Nano, s); err == nil {
+			j["res"] = obsTime(t)
+		}
+		emit(j)
+	}
+	variants := func(s string) {
+		emitP(s)
+		if i := strings.IndexByte(s, 'T'); i > 0 && len(s) > i+2 && s[i+1] == '0' {
+			emitP(s[:i+1] + s[i+2:]) // one-digit hour
+		}
+		emitP(strings.Replace(s, ".", ",", 1))
+		emitP(strings.Replace(s, "T", "t", 1))
+		emitP(strings.Replace(s, "T", " ", 1))
+		emitP(strings.Replace(s, "Z", "z", 1))
+		emitP(strings.Replace(s, "Z", "+00:00", 1))
+		emitP(strings.Replace(s, "Z", "-00:00", 1))
+		emitP(strings.Replace(s, "Z", "", 1))
+		emitP(s + " ")
+		emitP(" " + s)
+		emitP(s + "Z")
+		if i := strings.IndexAny(s, "Z+"); i > 19 {
+			emitP(s[:i] + "123" + s[i:])  // more fraction digits (or digits after the seconds)
+			emitP(s[:i] + ".5" + s[i:])   // second separator
+			emitP(s[:19] + ".000000000999" + s[i:])
+			emitP(s[:19] + "." + s[i:])
+			emitP(s[:19] + ".1234567891" + s[i:])
+		}
+		if len(s) >= 19 {
+			emitP(s[:17] + "60" + s[19:])
+			emitP(s[:11] + "24" + s[13:])
+			emitP(s[:14] + "60" + s[16:])
+			emitP(s[:5] + "13" + s[7:])
+			emitP(s[:5] + "00" + s[7:])
+			emitP(s[:8] + "00" + s[10:])
+			emitP(s[:8] + "32" + s[10:])
+			emitP(s[:8] + "31" + s[10:])
+			emitP(s[:8] + "30" + s[10:])
+			emitP(s[:8] + "29" + s[10:])
+			emitP("1" + s)
+			emitP(s[1:])
+			emitP("-" + s[1:])
+			emitP("+" + s[1:])
+		}
+		for k := 0; k < 3; k++ {
+			b := []byte(s)
+			if len(b) == 0 {
+				break
+			}
+			i := rnd.Intn(len(b))
+			switch rnd.Intn(3) {
+			case 0:
+				b = append(b[:i], b[i+1:]...)
+			case 1:
+				b[i] = "0123456789T:.,Z+- tz"[rnd.Intn(20)]
+			default:
+				b = append(b[:i+1], b[i:]...)
+			}
+			emitP(string(b))
+		}
+	}
+	for _, z := range []string{"+24:00", "+24:60", "+25:00", "+00:61", "+00:60", "-24:00", "+0000", "+00", "+1:00", "+01:0", "+01-00", "*01:00", "+01:00:00", "+ab:cd"} {
+		emitP("2006-01-02T15:04:05" + z)
+		emitP("2006-01-02T15:04:05.5" + z)
+	}
+	for _, s := range []string{"", "Z", "2006", "2006-01-02", "2006-01-02T", "2006-01-02T15:04:05", "2006-01-02T15:04Z", "2006-1-02T15:04:05Z", "2006-01-2T15:04:05Z",
+		"2006-01-02T15:4:05Z", "2006-01-02T15:04:5Z", "2006-01-02T1:04:05Z", "206-01-02T15:04:05Z", "02006-01-02T15:04:05Z", "2006/01/02T15:04:05Z",
+		"2006-01-02T15.04.05Z", "2006-01-02T15:04:05.Z", "2006-01-02T15:04:05,Z", "2006-01-02T15:04:05.5.5Z", "2006-01-02T15:04:05.5,5Z", "2006-01-02T15:04:05;5Z",
+		"2006-01-02T15:04:05.-5Z", "2006-01-02T15:04:05.+5Z", "2006-01-02T-5:04:05Z", "2006-01-02T+5:04:05Z", "2006-01-02T 5:04:05Z", "٢٠٠٦-01-02T15:04:05Z",
+		"2006-01-02T15:04:05Z07:00", "2006-01-02T15:04:05+07:00Z", "0000-01-01T00:00:00Z", "0000-02-29T00:00:00Z", "0100-02-29T00:00:00Z", "0400-02-29T00:00:00Z",
+		"1900-02-29T00:00:00Z", "2000-02-29T00:00:00Z", "2001-02-29T00:00:00Z", "2004-02-30T00:00:00Z", "2004-04-31T00:00:00Z", "2004-06-31T00:00:00Z",
+		"2004-09-31T00:00:00Z", "2004-11-31T00:00:00Z", "2004-12-31T23:59:59.999999999+14:00", "9999-12-31T23:59:59.999999999-14:00", "0000-01-01T00:00:00+14:00"} {
+		emitP(s)
+	}
+	emitF := func(t time.Time) {
+		o := obsTime(t)
+		text := t.Format(time.RFC3339Nano)
+		y := t.Year()
+		_, off := t.Zone()
+		dom := y >= 0 && y <= 9999 && off%60 == 0 && off > -86400 && off < 86400
+		emit(J{"kind": "tfmt", "t": o, "text": hx(text), "dom": dom})
+		if dom {
+			variants(text)
+		}
+	}
+	zs := []int{0, 60, -60, 14 * 3600, -14 * 3600, 20700, -34200, 86340, -86340, 3600, -3600, 12*3600 + 45*60}
+	ns := []int{0, 1, 10, 100, 1000, 10000, 100000, 1000000, 10000000, 100000000, 999999999, 123456789, 500000000, 120000000, 999999990, 100000001, 7000}
+	var base []time.Time
+	d := func(y, m, dd, h, mi, s int) { base = append(base, time.Date(y, time.Month(m), dd, h, mi, s, 0, time.UTC)) }
+	for _, y := range []int{0, 1, 4, 100, 400, 1582, 1600, 1677, 1699, 1700, 1900, 1969, 1970, 1999, 2000, 2001, 2100, 2262, 2400, 9999} {
+		d(y, 1, 1, 0, 0, 0)
+		d(y, 2, 28, 23, 59, 59)
+		d(y, 3, 1, 0, 0, 0)
+		d(y, 12, 31, 23, 59, 59)
+	}
+	for _, y := range []int{1999, 2000, 2100} {
+		for m := 1; m <= 12; m++ {
+			d(y, m, 1, 0, 0, 0)
+			d(y, m+1, 0, 12, 30, 30) // last day of month m
+		}
+	}
+	d(1582, 10, 4, 0, 0, 0)
+	d(1582, 10, 15, 0, 0, 0)
+	d(1677, 9, 21, 0, 12, 43)
+	d(2262, 4, 11, 23, 47, 16)
+	d(2262, 4, 12, 0, 0, 0)
+	d(2006, 1, 2, 3, 4, 5)
+	d(2006, 1, 2, 9, 4, 5)
+	for i, b := range base {
+		for k := 0; k < 3; k++ {
+			z := zs[(i+k*5)%len(zs)]
+			nn := ns[(i*3+k*7)%len(ns)]
+			t := b.Add(time.Duration(nn))
+			if z == 0 {
+				emitF(t)
+			} else {
+				emitF(t.In(time.FixedZone("", z)))
+			}
+		}
+	}
+	for i := 0; i < n; i++ {
+		sec := -62167219200 + 90000 + rnd.Int63n(253402300800+62167219200-180000)
+		var nn int64
+		switch rnd.Intn(4) {
+		case 0:
+			nn = 0
+		case 1:
+			nn = rnd.Int63n(1000000000)
+		default:
+			k := rnd.Intn(9)
+			p := int64(1)
+			for j := 0; j < k; j++ {
+				p *= 10
+			}
+			nn = rnd.Int63n(1000000000/p) * p
+		}
+		t := time.Unix(sec, nn)
+		var z int
+		if rnd.Intn(3) == 0 {
+			z = zs[rnd.Intn(len(zs))]
+		} else {
+			z = (rnd.Intn(2879) - 1439) * 60
+		}
+		if z == 0 {
+			emitF(t.UTC())
+		} else {
+			emitF(t.In(time.FixedZone("", z)))
+		}
+	}
+	// outside the domain (reported, not compared): zone with seconds, years < 0 and > 9999
+	emitF(time.Date(1900, 1, 1, 12, 0, 0, 0, time.FixedZone("LMT", 1172)))
+	emitF(time.Date(-1, 12, 31, 23, 0, 0, 0, time.UTC))
+	emitF(time.Date(10000, 1, 1, 0, 0, 0, 0, time.UTC))
+}
+
 // hash mode: one hex line per pre-image component list ("aa,bb,cc" = triple of three components); prints the UUID
 func modeHash() {
 	sc := bufio.NewScanner(os.Stdin)
@@ -1827,5 +1991,7 @@ func main() {
 		modeUUIDConc(*n)
 	case "parseconc":
 		modeParseConc(*n)
+	case "time":
+		modeTime(*n)
 	}
 }
